@@ -13,7 +13,9 @@ Subset (anything else inside a ROOT function or one it calls raises framework.Ti
            arguments (`f(..)`, `Obj.f(..)`, `Obj(..)` = `Obj.apply(..)`), table index `v(i)`, `v.length`, `b.toInt`
            | unary `-` `!` | binary `| & ^`(not used) `<< >> >>> + - *`, `/ literal`, `== != < <= > >=`, `|| &&`
            with Scala's precedence by first operator character
-           | the single recognised float expression `(Math.sqrt(8 * X.toDouble + 1) / 2 - 0.5).toInt`
+           | the float step `(Math.sqrt(D) / 2 - 0.5).toInt` where D is built from Int expressions (32-bit wrapping, BitVec 32),
+             `.toDouble`, integer-valued Double literals and `+ - *`, with the Int -> Double widening exactly where Scala's static
+             types put it (`8 * i.toDouble + 1` widens i first; `8 * i + 1.0` multiplies in Int - wrapping - and widens the product)
 """
 from __future__ import annotations
 
@@ -507,6 +509,11 @@ class Compiler:
         if op in ('|', '&') and tys == ('Bool', 'Bool'):
             lop = {'|': '||', '&': '&&'}[op]   # non-short-circuit: both operands are evaluated (strict)
             return self.strict([a, b], lambda n: f'({n[0]} {lop} {n[1]})', 'Bool')
+        if 'Dbl' in tys and set(tys) <= {'Dbl', 'I32'}:
+            if op not in ('+', '-', '*'):
+                self.fail(f'Double operator {op} is outside the subset (only + - * on integer-valued doubles are exact)')
+            a, b = self.widen(a), self.widen(b)      # Scala widens the Int operand of a mixed operation
+            return self.strict([a, b], lambda n: f'({n[0]} {op} {n[1]})', 'Dbl')
         if tys != ('I32', 'I32'):
             if op in ('==', '!=') and tys == ('Bool', 'Bool'):
                 return self.strict([a, b], lambda n: f'({n[0]} {op} {n[1]})', 'Bool')
@@ -551,6 +558,9 @@ class Compiler:
             if sel.text == 'toInt' and v.ty == 'Bool' and not self.at('(', 2):
                 self.i += 2
                 v = self.strict([v], lambda n: f'(Jvm.boolToInt {n[0]})', 'I32')
+            elif sel.text == 'toDouble' and v.ty == 'I32' and not self.at('(', 2):
+                self.i += 2
+                v = self.widen(v)
             elif sel.text == 'length' and v.ty == 'Arr' and not self.at('(', 2):
                 self.i += 2
                 v = self.strict([v], lambda n: f'(Jvm.length {n[0]})', 'I32')
@@ -558,24 +568,33 @@ class Compiler:
                 self.fail(f'selection .{sel.text} on {v.ty}')
         return v
 
-    _SQRT = ['(', 'Math', '.', 'sqrt', '(', '8', '*', None, '.', 'toDouble', '+', '1', ')', '/', '2', '-', '0.5', ')', '.', 'toInt']
+    def widen(self, v: V) -> V:
+        """Int -> Double (exact): the value as a Lean Int"""
+        if v.ty == 'Dbl':
+            return v
+        if v.ty != 'I32':
+            self.fail(f'cannot widen {v.ty} to Double')
+        m = re.fullmatch(r'\((\d+)#32\)', v.term)
+        if m and not v.partial:
+            return V(f'({m.group(1)} : Int)', 'Dbl')
+        return self.strict([v], lambda n: f'(BitVec.toInt {n[0]})', 'Dbl')
 
     def primary(self, env) -> V:
         t = self.peek()
         if t is None:
             self.fail('unexpected end of body')
         if t.text == '(' and self.at('Math', 1):
-            var = None
-            for k, want in enumerate(self._SQRT):
-                tk = self.peek(k)
-                if tk is None or (want is not None and tk.text != want):
-                    self.fail('floating-point expression other than (Math.sqrt(8 * i.toDouble + 1) / 2 - 0.5).toInt')
-                if want is None:
-                    var = tk.text
-            if env.get(var) != 'I32':
-                self.fail('sqrt pattern over a non-Int name')
-            self.i += len(self._SQRT)
-            return V(f'(Jvm.triRootF {var})', 'I32')
+            # ( Math . sqrt ( D ) / 2 - 0.5 ) . toInt
+            for k, want in enumerate(['(', 'Math', '.', 'sqrt', '(']):
+                if not self.at(want, k):
+                    self.fail('floating-point expression other than (Math.sqrt(D) / 2 - 0.5).toInt')
+            self.i += 5
+            d = self.widen(self.expr(env))
+            for want in [')', '/', '2', '-', '0.5', ')', '.', 'toInt']:
+                if not self.at(want):
+                    self.fail('floating-point expression other than (Math.sqrt(D) / 2 - 0.5).toInt')
+                self.i += 1
+            return self.strict([d], lambda n: f'(Jvm.triRootR {n[0]})', 'I32')
         if t.text == '(':
             self.i += 1
             v = self.expr(env)
@@ -590,8 +609,11 @@ class Compiler:
                 val = int(txt, 16)
             elif re.fullmatch(r'\d+', txt):
                 val = int(txt)
+            elif re.fullmatch(r'\d+\.0+', txt):
+                self.i += 1
+                return V(f'({int(txt.split(".")[0])} : Int)', 'Dbl')     # an integer-valued Double literal, exact
             else:
-                self.fail(f'literal {txt} is not an Int')
+                self.fail(f'literal {txt} is not an Int (or an integer-valued Double)')
             if val >= 2 ** 32 or (val >= 2 ** 31 and not txt.lower().startswith('0x')):
                 self.fail(f'literal {txt} out of Int range')
             self.i += 1
